@@ -98,7 +98,10 @@ def run_one(rep, scn):
         signal.alarm(0)
         for t in state['timers']:
             t.cancel()
-        state['alive_at_end'] = [e['name'] for e in out.ledger_obj.alive()]
+        alive = out.ledger_obj.alive()
+        state['alive_at_end'] = [e['name'] for e in alive]
+        if getattr(out, 'aborted', None) and alive:
+            state['diag'] = [dict(engine.diag_process(e['pid']), task=e['name']) for e in alive[:2]]
 
     t0 = time.monotonic()
     out = engine.run_dag(scn, before_run=before, after_run=after)
@@ -128,7 +131,7 @@ def judge(rep, scn, out, state, dur):
                           f'{state["kills"]} external kills); last calls: '
                           f'{[(c["op"], c.get("name")) for c in out.trace.calls[-8:]]}', wit)
         else:
-            rep.inconclusive(f'watchdog fired but workers still alive: {alive}', wit)
+            rep.inconclusive(f'watchdog fired but workers still alive: {alive}', dict(wit, diag=state.get('diag')))
     elif ab:
         rep.inconclusive(f'harness abort: {ab[:120]}', wit)
     else:
